@@ -325,12 +325,16 @@ def run(ctx):
 
     # ---- stage 2: run every job in every build
     corpus = Corpus()
+    import threading
+    lock = threading.Lock()
     def one(b_exe):
         b, exe = b_exe
-        return b, run_driver(exe, jobs, 900 if ctx.quick else 2400)
+        res, cr = run_driver(exe, jobs, 900 if ctx.quick else 2400)
+        with lock:
+            corpus.absorb(bname(b), jobs, res)
+        return b, cr
     crashes = []
-    for b, (res, cr) in pool.map(one, exes):
-        corpus.absorb(bname(b), jobs, res)
+    for b, cr in pool.map(one, exes):
         crashes += [(bname(b),) + c for c in cr]
     ctx.log("drivers done: %d executions folded into %d chacha + %d mixed + %d gost records, %d distinct ctx traces"
             % (corpus.executions, len(corpus.cc), len(corpus.mix), len(corpus.gost), len(corpus.tr)))
